@@ -112,4 +112,11 @@ CHECKS["C12"] = dict(
     note="Quick tier samples 200 lattice points and 120 sharing pairs; warm directory caches are warmed by an earlier runtime of the same process.",
 )
 
+CHECKS["C09"] = dict(
+    technique="TLA+ model of the keeps-alive graph, close, drop, collection and calls (Lifecycle.tla) checked by TLC (SafeCall under the demanded edges; counterexample under the edges the code creates); enumerated histories replayed in supervised children next to a twin runtime in which nothing is closed",
+    text="Lifecycle.tla has a provider A with an exported table, two importers B and C, an unrelated instance D, function references put into the shared table by their owners and into private tables through the host (invisible to the collector), Module.Close, CompiledModule.Close with live instances, dropping host references and GC that unmaps the code of closed unreachable instances. TLC proves SafeCall when slots keep owners alive and finds the counterexample under the implementation's edges (candidate). All histories of 5 steps ending in a call after a close (sampled in quick), the model-unsafe 6-step ones and a focused 8-step family (an importer leaves a reference in the shared table, is closed, compile-closed and dropped, another importer arrives, collection, a live instance calls) are replayed on both engines, with and without function listeners, each in its own child process with forced collections and heap reuse; every call of a live instance must return what the twin returns or an ordinary error, and the process must survive.",
+    design_ref="§4 C09",
+    note="A dangling reference that happens to keep working is not visible; GC is forced, not exhaustive; Runtime.Close / cache close are not in the action alphabet yet.",
+)
+
 NOT_YET = "check not built yet in this round (work in progress; see DESIGN.md §4)"
